@@ -193,6 +193,30 @@ pub type hb_set_digest_t = hb_set_digest_combiner_t<
 pub static VERIF_PREFILTER_OFF: core::sync::atomic::AtomicBool =
     core::sync::atomic::AtomicBool::new(false);
 
+/// Monitor (off by default): counts lookup-skip decisions taken while the apply context's digest
+/// reports a glyph that is in the buffer as absent.
+#[cfg(rustybuzz_verif)]
+pub static VERIF_DIGEST_MONITOR: core::sync::atomic::AtomicBool =
+    core::sync::atomic::AtomicBool::new(false);
+
+#[cfg(rustybuzz_verif)]
+pub static VERIF_DIGEST_STALE: core::sync::atomic::AtomicU64 =
+    core::sync::atomic::AtomicU64::new(0);
+
+#[cfg(rustybuzz_verif)]
+pub fn verif_monitor_digest(digest: &hb_set_digest_t, glyphs: impl Iterator<Item = GlyphId>) {
+    use core::sync::atomic::Ordering::Relaxed;
+    if !VERIF_DIGEST_MONITOR.load(Relaxed) || verif_prefilter_off() {
+        return;
+    }
+    for g in glyphs {
+        if !digest.may_have_glyph(g) {
+            VERIF_DIGEST_STALE.fetch_add(1, Relaxed);
+            return;
+        }
+    }
+}
+
 #[cfg(rustybuzz_verif)]
 #[inline]
 fn verif_prefilter_off() -> bool {
